@@ -2,6 +2,7 @@ package main
 
 import (
 	"fmt"
+	"go/token"
 	"strings"
 
 	"golang.org/x/tools/go/ssa"
@@ -129,6 +130,48 @@ func runC10(r *Run) {
 			fin, _ := a.IfEdges("(@@tmstore.FinalizationStore.LoadFinalizationByHeight($...)#4 == nil)", true, nil)
 			r.Check(okH && len(fin) > 0, "C10.3", "tmstate.StateMachine.sendInitialActionSet(entrance)", w.InstrPos(s.Instr), "the round entered at start-up is the stored position, or the next height when a finalization for the stored height exists")
 		}
+		// when the height is advanced past the stored one, the round entered is 0 (the stored round
+		// belongs to the finished height): on every phi edge carrying h+1 the round's phi carries 0
+		var vH, vR ssa.Value
+		a.Instrs(func(in ssa.Instruction) {
+			st, ok := in.(*ssa.Store)
+			if !ok {
+				return
+			}
+			switch lastField(st.Addr) {
+			case "tmeil.StateMachineRoundEntrance.H":
+				vH = st.Val
+			case "tmeil.StateMachineRoundEntrance.R":
+				vR = st.Val
+			}
+		})
+		okR, nAdv := false, 0
+		if ph, ok := vH.(*ssa.Phi); ok {
+			okR = true
+			pr, _ := vR.(*ssa.Phi)
+			for i, e := range ph.Edges {
+				bo, isAdd := e.(*ssa.BinOp)
+				if !isAdd || bo.Op != token.ADD {
+					continue
+				}
+				nAdv++
+				zero := false
+				if pr != nil && pr.Block() == ph.Block() {
+					if k, ok := pr.Edges[i].(*ssa.Const); ok {
+						if v, ok := constInt(k); ok && v == 0 {
+							zero = true
+						}
+					}
+				}
+				if k, ok := vR.(*ssa.Const); ok {
+					if v, ok := constInt(k); ok && v == 0 {
+						zero = true
+					}
+				}
+				okR = okR && zero
+			}
+		}
+		r.Check(okR && nAdv > 0, "C10.3", "tmstate.StateMachine.sendInitialActionSet(entrance-round)", w.Pos(fn.Pos()), "when start-up moves on to the next height because the stored height is already finalized, it enters round 0 of that height, not the stored round")
 	}
 	r.Expect("C10.3", 6, "start-up reads")
 
@@ -385,6 +428,39 @@ func runC11(r *Run) {
 				r.Check(marked, "C11.4", fmt.Sprintf("tmi.Kernel.mainLoop#send-case%d", n), w.InstrPos(in), "after sending on "+truncate(chs, 80)+" the output's MarkSent must run in that case")
 			}
 		})
+	}
+	// a round entrance starts the state machine's output afresh: the queued jump-ahead (a snapshot
+	// taken for the previous entrance) is dropped and the sent-version is reset on every path
+	if fn := w.Fn("tmi.stateMachineViewManager.Reset"); fn != nil {
+		a := w.A(fn)
+		want := map[string]string{"tmi.stateMachineViewManager.jumpAhead": "nil", "tmi.stateMachineViewManager.lastSentVersion": "0", "tmi.stateMachineViewManager.roundEntrance": "p1"}
+		for f, val := range want {
+			ok := false
+			a.Instrs(func(in ssa.Instruction) {
+				st, isSt := in.(*ssa.Store)
+				if !isSt || lastField(st.Addr) != f || a.sh.Of(st.Val).String() != val {
+					return
+				}
+				all := true
+				for _, ret := range a.Returns() {
+					if !Dominates(in, ret) {
+						all = false
+					}
+				}
+				if all {
+					ok = true
+				}
+			})
+			// no other value is stored into the field
+			a.Instrs(func(in ssa.Instruction) {
+				if st, isSt := in.(*ssa.Store); isSt && lastField(st.Addr) == f && a.sh.Of(st.Val).String() != val {
+					ok = false
+				}
+			})
+			r.Check(ok, "C11.4", "tmi.stateMachineViewManager.Reset("+strings.TrimPrefix(f, "tmi.stateMachineViewManager.")+")", w.Pos(fn.Pos()), "on every round entrance "+f+" is set to "+val+" unconditionally (a jump-ahead queued for the previous entrance is stale: its version is not newer than the entrance response)")
+		}
+	} else {
+		r.Fail("C11.4", "tmi.stateMachineViewManager.Reset", "", "function not found")
 	}
 	if fn := w.Fn("tmi.stateMachineViewManager.Output"); fn != nil {
 		a := w.A(fn)
